@@ -286,21 +286,168 @@ def run(ck):
               % (name, rec_name, addr_param, width // 8, acc_name, width, addr_param))
 
     # ------------------------------------------------------------------ R5
+    _breakpoint_match_rules(ck, tu)
+
+
+def _breakpoint_match_rules(ck, tu):
+    """R5 "memory breakpoints trigger exactly for accesses overlapping them": in check_memory_breakpoint - and in the helpers of the same
+    file it calls from a condition - for each access kind K (read / write):
+      * the list of recorded K-accesses is consulted only under the test `bp->access & BREAKPOINT_K` (dominance on the true edge);
+      * the breakpoint flag is raised (or the helper answers non-zero) exactly on the two strict comparisons
+            bp.ad < access.stop   and   access.start < bp.ad + bp.size
+        each taken with the polarity under which the CFG reaches the hit, on linear forms (locals, helper parameters expanded);
+      * the loop that holds them runs over the `num` entries of that list.
+    Nothing depends on the spelling, on the nesting of the ifs or on where the loop lives."""
+    from sa.repo import AnalysisError
     f = tu.func("check_memory_breakpoint")
-    for kind, lst, bit in (("read", "memory_r", tu.macro_int("BREAKPOINT_READ")), ("write", "memory_w", tu.macro_int("BREAKPOINT_WRITE"))):
-        ok = False
-        for n in cast.walk(f.body):
-            if n.get("kind") == "IfStmt":
-                cond = n["inner"][0]
-                t = cast.ctext(cond).replace(" ", "")
-                if lst in cast.text_names(cond) and "&&" in t:
-                    a = "memory_bp->ad<vm_mngr->%s.array[i].stop" % lst in t
-                    b = "vm_mngr->%s.array[i].start<memory_bp->ad+memory_bp->size" % lst in t
-                    sets = any(x.get("kind") == "CompoundAssignOperator" and x.get("opcode") == "|=" for x in cast.walk(n["inner"][1]))
-                    if a and b and sets:
-                        ok = True
-        ck.ob("R5", "check_memory_breakpoint:%s" % kind, ok, VMC,
-              "%s breakpoints are not matched with `bp.start < access.stop && access.start < bp.start + bp.size` over %s" % (kind, lst))
+    flag = tu.macro_int("EXCEPT_BREAKPOINT_MEMORY")
+
+    def sets_flag(nd):
+        if nd.kind != "stmt" or nd.ast is None:
+            return False
+        for x in cast.walk(nd.ast):
+            if x.get("kind") == "CompoundAssignOperator" and x.get("opcode") == "|=" and cast.ctext(x["inner"][0]).endswith("exception_flags") \
+                    and cast.const_int(x["inner"][1]) == flag:
+                return True
+        return False
+
+    def returns(nonzero):
+        def pred(nd):
+            if nd.kind != "stmt" or nd.ast is None or nd.ast.get("kind") != "ReturnStmt" or not nd.ast.get("inner"):
+                return False
+            v = cast.const_int(nd.ast["inner"][0])
+            return v is not None and (v != 0) == nonzero
+        return pred
+
+    def polarity(cfg, t, hits):
+        """the label of test node t that decides a hit: for some hit h, h is reachable from exactly one outcome of t without
+        re-evaluating t (another hit further on, reachable from both outcomes, says nothing); None when no hit is decided by t or
+        two hits disagree"""
+        decided = set()
+        for h in hits:
+            labs = set()
+            for (sx, lab) in cfg.succ[t.id]:
+                if lab in (True, False) and (sx == h.id or cfg.can_reach(sx, h.id, avoid=lambda n, t=t: n.id == t.id)):
+                    labs.add(lab)
+            if len(labs) == 1:
+                decided |= labs
+        return list(decided)[0] if len(decided) == 1 else None
+
+    # contexts: (function, definitions for c_linear, hit predicate, {name prefix -> list name})
+    ctxs = []
+    cfg0 = f.cfg()
+    hits0 = [nd for nd in cfg0.nodes if sets_flag(nd)]
+    ck.need(hits0, "check_memory_breakpoint: no statement raises EXCEPT_BREAKPOINT_MEMORY")
+    ctxs.append((f, cast.local_defs(f), hits0, {}))
+    for t in cfg0.nodes:
+        if t.kind != "test" or t.ast is None:
+            continue
+        e = cast.strip(t.ast)
+        if e.get("kind") != "CallExpr" or cast.callee(e) not in tu.funcs:
+            continue
+        g = tu.funcs[cast.callee(e)]
+        args = cast.call_args(e)
+        params = [p_.get("name") for p_ in g.params]
+        if len(params) != len(args):
+            continue
+        pol = polarity(cfg0, t, hits0)
+        if pol is None:
+            continue
+        gl = cast.local_defs(g)
+        inner_names = set(params) | set(gl) | set(n_.get("name") for n_ in cast.walk(g.body) if n_.get("kind") == "VarDecl")
+        if any(cast.text_names(a_) & inner_names for a_ in args):
+            raise AnalysisError("check_memory_breakpoint: an argument of %s() uses a name that is also a local of the helper" % g.name)
+        defs = dict(cast.local_defs(f))
+        defs.update(gl)
+        defs.update(dict(zip(params, args)))
+        gh = [nd for nd in g.cfg().nodes if returns(pol)(nd)]
+        binds = dict((p_, cast.ctext(a_)) for p_, a_ in zip(params, args))
+        ctxs.append((g, defs, gh, binds))
+
+    def list_of(term, binds):
+        for L in ("memory_r", "memory_w"):
+            if L in term:
+                return L
+        head = term.split("->")[0].split(".")[0].split("[")[0].strip("(&* ")
+        bound = binds.get(head, "")
+        for L in ("memory_r", "memory_w"):
+            if L in bound:
+                return L
+        return None
+
+    found = {}        # list -> set of forms
+    loops = set()
+    for (g, defs, hits, binds) in ctxs:
+        cfg = g.cfg()
+        for t in cfg.nodes:
+            if t.kind != "test" or t.ast is None:
+                continue
+            e = cast.strip(t.ast)
+            if e.get("kind") != "BinaryOperator" or e.get("opcode") not in ("<", "<=", ">", ">="):
+                continue
+            # loop bound: i < <list>.num
+            for side in e["inner"]:
+                tx = cast.ctext(cast.strip(side))
+                if tx.endswith(".num") or tx.endswith("->num"):
+                    L = list_of(tx, binds)
+                    if L:
+                        loops.add(L)
+            pol = polarity(cfg, t, hits)
+            if pol is None:
+                continue
+            lr = cast.c_less_than(e, pol, defs)
+            if lr is None:
+                continue
+            (lt, lc), (rt, rc) = lr
+            d = dict(lt)
+            for k_, v_ in rt:
+                d[k_] = d.get(k_, 0) - v_
+            d = dict((k_, v_) for k_, v_ in d.items() if v_)
+            c = lc - rc
+            acc = [k_ for k_ in d if "array[" in k_ and (k_.endswith(".stop") or k_.endswith(".start"))]
+            if len(acc) != 1:
+                continue
+            L = list_of(acc[0], binds)
+            if L is None:
+                continue
+            rest = dict((k_, v_) for k_, v_ in d.items() if k_ != acc[0])
+            ads = [k_ for k_ in rest if k_.endswith("->ad") or k_.endswith(".ad")]
+            szs = [k_ for k_ in rest if k_.endswith("->size") or k_.endswith(".size")]
+            form = None
+            if acc[0].endswith(".stop") and d[acc[0]] == -1 and len(rest) == 1 and len(ads) == 1 and rest[ads[0]] == 1:
+                form = ("bp.ad < access.stop", c)
+            if acc[0].endswith(".start") and d[acc[0]] == 1 and len(rest) == 2 and len(ads) == 1 and len(szs) == 1 and rest[ads[0]] == -1 and rest[szs[0]] == -1:
+                form = ("access.start < bp.ad + bp.size", c)
+            if form is None:
+                form = ("other: %s < %s" % (sorted(lt), sorted(rt)), c)
+            found.setdefault(L, set()).add(form)
+
+    dom = cfg0.dominators()
+    for kind, L, bit in (("read", "memory_r", tu.macro_int("BREAKPOINT_READ")), ("write", "memory_w", tu.macro_int("BREAKPOINT_WRITE"))):
+        forms = found.get(L, set())
+        want = set([("bp.ad < access.stop", 0), ("access.start < bp.ad + bp.size", 0)])
+        ok = forms == want
+        ck.ob("R5", "check_memory_breakpoint:%s" % kind, ok and L in loops, VMC,
+              "%s breakpoints: the hit is decided on %s over %s (every entry: %s); expected exactly the two strict comparisons "
+              "bp.ad < access.stop and access.start < bp.ad + bp.size over all recorded entries: an access that only touches the "
+              "breakpoint's boundary triggers it, or an overlapping one does not"
+              % (kind, sorted("%s%s" % (f_, "" if c_ == 0 else " (off by %d: non-strict)" % -c_) for f_, c_ in forms) or "nothing", L, L in loops))
+        # the list is consulted only under the kind bit
+        kt = []
+        for t in cfg0.nodes:
+            if t.kind == "test" and t.ast is not None:
+                e = cast.strip(t.ast)
+                if e.get("kind") == "BinaryOperator" and e.get("opcode") == "&" and any(cast.const_int(x_) == bit for x_ in e["inner"]) \
+                        and any(cast.ctext(cast.strip(x_)).endswith("access") for x_ in e["inner"]):
+                    kt.append(t)
+        users = [nd for nd in cfg0.nodes if nd.ast is not None and nd.kind in ("test", "stmt") and L in cast.text_names(nd.ast)]
+        good = bool(kt) and bool(users)
+        for u in users:
+            if not any(t.id in dom[u.id] and not any(lab is False and (sx == u.id or cfg0.can_reach(sx, u.id, avoid=lambda n, t=t: n.id == t.id))
+                                                     for (sx, lab) in cfg0.succ[t.id]) for t in kt):
+                good = False
+        ck.ob("R5", "check_memory_breakpoint:%s:kind-bit" % kind, good, VMC,
+              "the recorded %s accesses (%s) are matched against a breakpoint without the test `access & BREAKPOINT_%s` holding" % (kind, L, kind.upper()))
 
 
 def _access_log_rules(ck, tu):
